@@ -18,7 +18,7 @@ import (
 )
 
 var lifeOps14 = []string{"connect", "connect", "connect", "call", "call", "close", "abort", "failcall", "shutdown", "shutdown", "shutdown-race", "shutdown-early", "cancel", "bind-again", "serve", "serve", "late-connect", "expiry"}
-var lifeOps15 = []string{"connect", "connect", "call", "close", "close", "abort", "failcall", "expiry", "expiry", "expiry", "shutdown", "serve", "late-connect", "cancel"}
+var lifeOps15 = []string{"connect-expiry", "connect-expiry", "connect", "connect", "call", "close", "close", "abort", "failcall", "expiry", "expiry", "expiry", "shutdown", "serve", "late-connect", "cancel"}
 
 func genLife(t *rapid.T, ops []string, timeout bool) LifeCase {
 	c := LifeCase{Timeout: timeout}
@@ -33,7 +33,7 @@ func checkC14(c LifeCase, st *Stats) error {
 	facts, err := ExecLife(c, protoBound)
 	nt := facts["shutdown-with-open-conns"] > 0 || facts["re-serve"] >= 1 || facts["shutdown-race"] > 0 || facts["shutdown-early"] > 0
 	var labels []string
-	for _, k := range []string{"shutdown-with-open-conns", "re-serve", "shutdown-race", "shutdown-early", "cancel", "abort", "failcall", "bind-during-serving", "late-connect", "call-while-draining"} {
+	for _, k := range []string{"shutdown-with-open-conns", "re-serve", "shutdown-race", "shutdown-early", "cancel", "abort", "failcall", "bind-during-serving", "late-connect", "call-while-draining", "expiry-idle"} {
 		if facts[k] > 0 {
 			labels = append(labels, "has:"+k)
 		}
@@ -360,7 +360,7 @@ func checkC15(c LifeCase, st *Stats) error {
 	facts, err := ExecLife(c, protoBound)
 	nt := facts["expiry-busy"] > 0 && facts["expiry-idle"] > 0
 	var labels []string
-	for _, k := range []string{"expiry-busy", "expiry-idle", "re-serve", "abort", "failcall", "cancel"} {
+	for _, k := range []string{"expiry-busy", "expiry-idle", "connect-expiry", "re-serve", "abort", "failcall", "cancel"} {
 		if facts[k] > 0 {
 			labels = append(labels, "has:"+k)
 		}
@@ -383,8 +383,8 @@ func TestC15Rapid(t *testing.T) {
 // TestC15Enum: all event sequences of length <= 5 (6 thorough) over {connect, close, abort, failcall, expiry}
 // with a timeout (bounded-exhaustive), each followed by a final expiry and a re-serve.
 func TestC15Enum(t *testing.T) {
-	alphabet := []string{"connect", "close", "abort", "failcall", "expiry"}
-	maxLen := 5
+	alphabet := []string{"connect", "close", "abort", "failcall", "expiry", "connect-expiry"}
+	maxLen := 4
 	if Thorough() {
 		maxLen = 6
 	}
